@@ -148,6 +148,7 @@ def run(ctx):
     with cf.ThreadPoolExecutor(4) as ex:
         for c, r in ex.map(one, cfgs):
             ctx.model("GridLandscape %s" % c, r, constants=c)
+    ctx.liveness("GridLandscape", dict(N=4, S=2, MaxBars=2 if quick else 3), ["Termination", "InputUntouched"], workers=4, heap="4g")
     from .. import tlaps
     tlaps.attach(ctx, "TentLipschitz", "for ALL integers: endpoints moved by <= s/2 move the tent by <= s/2 at every t; max/min are 1-Lipschitz (unbounded half of HalfStep)")
     embs_all = EXACT_EMBS + DEC_EMBS[:3]
